@@ -73,23 +73,34 @@ def decItems (f : Bytes → DRes (CVal × Bytes)) : Nat → Bytes → DRes (List
       | .error e => .error e
       | .ok (vs, r') => .ok (v :: vs, r')
 
-/-- `n` key/value pairs; `k` decodes a key (a string), `f` a value. -/
+/-- `n` key/value pairs; `k` decodes a key (a string), `f` a value.  A key that was already seen
+    in this map is outside the value model: the codec then decodes the new value *into* the old
+    one (lists are overwritten element-wise, maps merged, a number after a string becomes a
+    string, ...). -/
 def decPairs (k : Bytes → DRes (Bytes × Bytes)) (f : Bytes → DRes (CVal × Bytes)) :
-    Nat → Bytes → DRes (List (Bytes × CVal) × Bytes)
-  | 0, bs => .ok ([], bs)
-  | n + 1, bs =>
+    Nat → List Bytes → Bytes → DRes (List (Bytes × CVal) × Bytes)
+  | 0, _, bs => .ok ([], bs)
+  | n + 1, seen, bs =>
     match k bs with
     | .error e => .error e
     | .ok (key, r) =>
-      match f r with
-      | .error e => .error e
-      | .ok (v, r') =>
-        match decPairs k f n r' with
+      if seen.contains key then .error .unsupported
+      else
+        match f r with
         | .error e => .error e
-        | .ok (ps, r'') => .ok ((key, v) :: ps, r'')
+        | .ok (v, r') =>
+          match decPairs k f n (key :: seen) r' with
+          | .error e => .error e
+          | .ok (ps, r'') => .ok ((key, v) :: ps, r'')
+
+/-- No key of `d` occurs in `seen` or twice in `d`. -/
+def noDupFrom : List Bytes → List (Bytes × CVal) → Bool
+  | _, [] => true
+  | seen, (k, _) :: r => !seen.contains k && noDupFrom (k :: seen) r
 
 mutual
-  /-- Encodable: integers in Go's int64 ∪ uint64, every length below `L`. -/
+  /-- Encodable: integers in Go's int64 ∪ uint64, every length below `L`, dict keys distinct
+      (as in any Go map). -/
   def validB (L : Nat) : CVal → Bool
     | .null => true
     | .bool _ => true
@@ -98,7 +109,7 @@ mutual
     | .str s => decide (s.length < L)
     | .bin b => decide (b.length < L)
     | .list l => decide (l.length < L) && validListB L l
-    | .dict d => decide (d.length < L) && validDictB L d
+    | .dict d => decide (d.length < L) && noDupFrom [] d && validDictB L d
   def validListB (L : Nat) : List CVal → Bool
     | [] => true
     | v :: vs => validB L v && validListB L vs
